@@ -472,7 +472,7 @@ func (sv *Solver) solve(q string, order []string) SolveResult {
 		race, rest = order[:2], order[2:]
 	}
 	// quick attempt with the preferred solver alone; most queries finish in milliseconds
-	st, out, d := runSolverCtx(context.Background(), race[0], file, 2*time.Second)
+	st, out, d := runSolverCtx(context.Background(), race[0], file, 1*time.Second)
 	if st == "unsat" || st == "sat" {
 		res.Status, res.Solver, res.Output, res.Time = st, race[0], out, d
 		res.Tried = append(res.Tried, fmt.Sprintf("%s:%s:%.2fs", race[0], st, d))
